@@ -165,6 +165,28 @@ func (c *c20) roundTrip(what string, m interfaces.ConsensusMessage, km *varKM, w
 	if !bytes.Equal(back.Raw(), m.Raw()) {
 		c.bad("content-bytes-changed", fmt.Sprintf("%s: content differs after raw round trip", what))
 	}
+	// the block that travels next to the content: the same on the typed message that was parsed back, and after a second leg
+	typedBlock := func(x interfaces.ConsensusMessage) (interfaces.Block, bool) {
+		switch t := x.(type) {
+		case *interfaces.PreprepareMessage:
+			return t.Block(), true
+		case *interfaces.ViewChangeMessage:
+			return t.Block(), true
+		case *interfaces.NewViewMessage:
+			return t.Block(), true
+		}
+		return nil, false
+	}
+	if b0, carries := typedBlock(m); carries {
+		b1, _ := typedBlock(back)
+		if (b0 == nil) != (b1 == nil) || (b0 != nil && spi.AsBlk(b0) != spi.AsBlk(b1)) {
+			c.bad("block-changed", fmt.Sprintf("%s: the parsed message's block differs from the built message's block (built %v, parsed %v)", what, b0, b1))
+		}
+		raw3 := back.ToConsensusRawMessage()
+		if (raw3.Block == nil) != (raw.Block == nil) || !bytes.Equal(raw3.Content, raw.Content) {
+			c.bad("second-leg-differs", fmt.Sprintf("%s: raw -> typed -> raw changed the content or dropped / added the block", what))
+		}
+	}
 	d1, ok1 := ref.Decode(raw)
 	d2, ok2 := ref.Decode(raw2)
 	if !ok1 || !ok2 {
